@@ -25,6 +25,8 @@ type Engine struct {
 	CS   *ContractSet
 	Spec *SpecSet
 
+	knownOnce      sync.Once
+	known          map[string]bool
 	needUTF8       bool
 	needSpanOf     bool
 	needCat        map[string]bool
@@ -637,6 +639,22 @@ func (E *Engine) nondeterminism(fn *ssa.Function) string {
 	return ""
 }
 
+// knownFailing: obligations recorded as unrepaired genuine defects in known_findings.json.
+func (E *Engine) knownFailing() map[string]bool {
+	E.knownOnce.Do(func() {
+		E.known = map[string]bool{}
+		var ks []KnownFinding
+		if readJSON(filepath.Join(verifDir, "known_findings.json"), &ks) == nil {
+			for _, k := range ks {
+				if k.Status == "known" {
+					E.known[k.Obligation] = true
+				}
+			}
+		}
+	})
+	return E.known
+}
+
 func deterministicLibrary(pkg string) bool {
 	switch pkg {
 	case "strconv", "strings", "unicode", "unicode/utf8", "errors", "fmt", "slices", "sort", "bytes", "math", "maps", "golang.org/x/exp/maps", "cmp":
@@ -1023,8 +1041,15 @@ func (E *Engine) solvePath(key string, pi int, p *PathResult, full string) []Sub
 		single := head1(full, i)
 		var notes []string
 		notes = append(notes, fmt.Sprintf("%s: %s", out[i].Solver, out[i].Status))
-		for _, s := range []solverSpec{solvers[1], solvers[2], solvers[0]} {
-			r, raw := runSolver(s, E.TimeoutR, single, n, E.WorkDir, fmt.Sprintf("%s.c%d.%s", tag, i, s.name))
+		retry := []solverSpec{solvers[1], solvers[2], solvers[0]}
+		tmo := E.TimeoutR
+		if E.knownFailing()[c.Ob] {
+			// an obligation recorded as a known finding is expected to fail: one short second opinion is enough
+			retry = []solverSpec{solvers[1]}
+			tmo = E.TimeoutQ
+		}
+		for _, s := range retry {
+			r, raw := runSolver(s, tmo, single, n, E.WorkDir, fmt.Sprintf("%s.c%d.%s", tag, i, s.name))
 			st := "unknown"
 			if r != nil && r[i] != "" {
 				st = r[i]
